@@ -15,8 +15,8 @@ HERE = os.path.dirname(os.path.dirname(os.path.abspath(__file__)))
 if HERE not in sys.path:
     sys.path.insert(0, HERE)
 
-SPEC_MODULES = ['spec.calendar']
-CONTRACT_MODULES = ['contracts.inputs']
+SPEC_MODULES = ['spec.calendar', 'spec.strings']
+CONTRACT_MODULES = ['contracts.inputs', 'contracts.strings']
 VOCAB_MODULES = ['pyvc.rx_rules', 'pyvc.prims_sym']
 
 
